@@ -27,8 +27,12 @@ FirstDiffering(e, j) ==
        THEN "FAIL:equal_schemas_disagree_on_a_value:" \o Sig(e, e.equals[j].b)
   ELSE FirstDiffering(e, j + 1)
 
+\* optional(key) markers (d42/declaration/types/_optional.py): equal exactly when their keys are,
+\* hash-consistent, never equal to the bare key -- observed on the real class for every pair of
+\* keys of the key zoo and reported as one flag per schema event
 Verdict(e) ==
-  IF ~e.refl THEN "FAIL:not_reflexive:"
+  IF ~e.optional_ok THEN "FAIL:optional_marker_equality_or_hash:"
+  ELSE IF ~e.refl THEN "FAIL:not_reflexive:"
   ELSE IF ~e.rebuilt_eq THEN "FAIL:independent_builds_unequal:"
   ELSE IF ~e.ne_ok THEN "FAIL:ne_is_not_the_negation_of_eq:"
   ELSE IF ~e.sym_ok THEN "FAIL:not_symmetric:"
